@@ -620,6 +620,28 @@ def gen_precalc(src, fns, path):
                 out.append('/-- %s: %s -/' % (fname, re.sub(r'\s+', ' ', ast.get_source_segment(src, s))))
                 out.append('def pre%dD%s_%s_%s (MInt_i delj_i dx_i V_i V_ip1 dfactor_i dfactor_ip1 : Rat) : Rat := %s'
                            % (d, axn, arr[0], 'hi' if hi else 'lo', tr(s.value, ctx)))
+    # ---- wiring of the 2-D / 3-D constant-parameter drivers: which grid, migration rate, nu, gamma, h each axis uses
+    out.append('structure PreWiring where\n  d : Nat\n  ax : Nat\n  what : String\n  args : List String\nderiving DecidableEq, Repr')
+    items = []
+    def norm(e):
+        t = ast.unparse(e).replace(' ', '')
+        return t
+    for d, fname in ((2, '_two_pops_const_params'), (3, '_three_pops_const_params')):
+        fn = fns[fname]
+        for s_ in fn.body:
+            if isinstance(s_, ast.Assign) and len(s_.targets) == 1 and isinstance(s_.targets[0], ast.Name) and isinstance(s_.value, ast.Call):
+                nm = s_.targets[0].id
+                m = re.match(r'^(M|V)([xyz])(Int)?$', nm)
+                if m and callee_name(s_.value.func) in ('_Mfunc%dD' % d, '_Vfunc'):
+                    ax = 'xyz'.index(m.group(2))
+                    items.append((d, ax, nm, [norm(a) for a in s_.value.args]))
+            if isinstance(s_, ast.If) and len(s_.body) == 1 and isinstance(s_.body[0], ast.AugAssign):
+                tgt = s_.body[0].target
+                if isinstance(tgt, ast.Subscript) and isinstance(tgt.value, ast.Name) and re.match(r'^b[xyz]$', tgt.value.id):
+                    ax = 'xyz'.index(tgt.value.id[1])
+                    items.append((d, ax, 'bc:' + norm(s_.test), [norm(tgt), norm(s_.body[0].value)]))
+    out.append('def preWiring : List PreWiring := [\n' + ',\n'.join(
+        '  { d := %d, ax := %d, what := %s, args := %s }' % (d, ax, json.dumps(w), json.dumps(a)) for d, ax, w, a in items) + '\n]')
     return '\n'.join(out)
 
 def gen_driver_wiring(src, fns, path):
